@@ -12,6 +12,13 @@ CHECKS = {
         "replayed into the real brush (and bash as an audit of the model). Exhaustive within the stated depth/size constants; beyond them seeded simulation.",
    note="Trusted: TLC, the syntax-only renderer, bash 5.2.15 as reference, the scripted-leaf prelude (validated per run). Bounds: nesting depth 2 (quick) / 3 + simulation depth 4 (thorough).",
    ref="DESIGN.md section 6 C02, Appendix A"),
+ "C03": dict(level=MC, thorough=True, tech="TLA+ Interp.tla (errexit suppress flag vs declarative exemption, nounset, pipefail); TLC-generated programs x option sets replayed into brush with bash audit",
+   text="Same machine as C02 with options: TLC checks in every state that the copied suppress flag equals the declarative exemption computed from the "
+        "continuation stack (SuppressAgrees) and emits, for a failing leaf / option toggle / unset expansion at every position of every construct chain "
+        "(incl. pipelines, command substitutions, functions, eval, subshells) under the relevant option sets, the exact marker trace and exit status; each is replayed into brush.",
+   note="Trusted: TLC, renderer, bash 5.2.15 as reference (7 cases where bash deviates from its own documented rule are excluded by the audit), prelude. "
+        "The status of a fatal expansion error is only required to be non-zero (1 and 127 identified).",
+   ref="DESIGN.md section 6 C03"),
 }
 PENDING_REASON = "check not built yet in this round (planned, see DESIGN.md section 12); no claim is made"
 
